@@ -10,6 +10,7 @@ package main
 
 import (
 	"fmt"
+	"hash/fnv"
 	"strings"
 	"sync/atomic"
 
@@ -20,28 +21,100 @@ import (
 
 // Case is one way or relation handed to Polygon(). It is the replay format.
 type Case struct {
-	Family string      `json:"family"`
-	Rel    bool        `json:"relation,omitempty"`
-	Shape  string      `json:"shape,omitempty"`
-	Refs   []int64     `json:"refs,omitempty"`
-	Meta   bool        `json:"meta,omitempty"` // first/last way node carry different version/lat/lon
-	Tags   [][2]string `json:"tags"`
+	Family string  `json:"family"`
+	Rel    bool    `json:"relation,omitempty"`
+	Shape  string  `json:"shape,omitempty"`
+	Refs   []int64 `json:"refs,omitempty"`
+	Meta   bool    `json:"meta,omitempty"` // first/last way node carry different version/lat/lon
+	Tags   tagList `json:"tags"`
+	// Variant names what else the object carries besides refs and tags (its own
+	// id, metadata, updates, nil instead of empty slices, ...); see applyVariant.
+	// None of it is mentioned by the property, so none of it may matter.
+	Variant string `json:"variant,omitempty"`
+	// Steps: after the first answer the SAME object is given these refs and tags
+	// one after the other and asked again each time.
+	Steps []Step `json:"steps,omitempty"`
+}
+
+// Step is one later state of the object of a sequence case.
+type Step struct {
+	Refs []int64 `json:"refs,omitempty"`
+	Tags tagList `json:"tags"`
 }
 
 func (c Case) Fingerprint() string {
 	var b strings.Builder
 	if c.Rel {
 		b.WriteString("R")
+		if c.Variant != "" {
+			fmt.Fprintf(&b, "%d", len(c.Refs))
+		}
 	} else {
-		fmt.Fprintf(&b, "W%v%v", c.Refs, c.Meta)
+		fmt.Fprintf(&b, "W%s%v", abbrevRefs(c.Refs), c.Meta)
 	}
-	for _, t := range c.Tags {
-		b.WriteString("|")
-		b.WriteString(t[0])
-		b.WriteString("=")
-		b.WriteString(t[1])
+	if c.Variant != "" {
+		b.WriteString("{" + c.Variant + "}")
+	}
+	writeTags(&b, c.Tags)
+	for _, st := range c.Steps {
+		fmt.Fprintf(&b, " -> %s", abbrevRefs(st.Refs))
+		writeTags(&b, st.Tags)
 	}
 	return b.String()
+}
+
+// Describe is the Fingerprint for messages: of a long tag list only the tags a
+// rule speaks about are shown (with their positions).
+func (c Case) Describe() string {
+	long := len(c.Tags) > 24
+	for _, st := range c.Steps {
+		long = long || len(st.Tags) > 24
+	}
+	if !long {
+		return c.Fingerprint()
+	}
+	short := func(tags tagList) tagList {
+		if len(tags) <= 24 {
+			return tags
+		}
+		h := fnv.New64a()
+		var out tagList
+		for i, t := range tags {
+			h.Write([]byte(t[0] + "\x00" + t[1] + "\x00"))
+			if lookupRule(t[0]) != nil || t[0] == "type" || i == 0 || i == len(tags)-1 {
+				out = append(out, [2]string{fmt.Sprintf("[%d]%s", i, t[0]), t[1]})
+			}
+		}
+		return append(out, [2]string{"tags", fmt.Sprintf("%d,fnv=%016x", len(tags), h.Sum64())})
+	}
+	d := c
+	d.Tags = short(c.Tags)
+	d.Steps = nil
+	for _, st := range c.Steps {
+		d.Steps = append(d.Steps, Step{Refs: st.Refs, Tags: short(st.Tags)})
+	}
+	return d.Fingerprint()
+}
+
+func writeTags(b *strings.Builder, tags tagList) {
+	for _, t := range tags {
+		b.WriteString("|")
+		b.WriteString(abbrev(t[0]))
+		b.WriteString("=")
+		b.WriteString(abbrev(t[1]))
+	}
+}
+
+// states lists the object states of a case: the initial one and one per step.
+func (c Case) states() []Case {
+	out := []Case{c}
+	out[0].Steps = nil
+	for _, st := range c.Steps {
+		n := out[0]
+		n.Refs, n.Tags = st.Refs, st.Tags
+		out = append(out, n)
+	}
+	return out
 }
 
 // ---------------------------------------------------------------- reference
@@ -119,10 +192,23 @@ func refRelation(c Case) int {
 	return no
 }
 
-func distinctKeys(tags [][2]string) bool {
+// isTagSet: the list denotes a tag set (a key has one value). A tag that is
+// repeated with the same value denotes the same set as a single occurrence; a
+// key with two different values is not a tag set and is not judged.
+func isTagSet(tags [][2]string) bool {
+	if len(tags) > 64 {
+		seen := make(map[string]string, len(tags))
+		for _, t := range tags {
+			if v, ok := seen[t[0]]; ok && v != t[1] {
+				return false
+			}
+			seen[t[0]] = t[1]
+		}
+		return true
+	}
 	for i := range tags {
 		for j := i + 1; j < len(tags); j++ {
-			if tags[i][0] == tags[j][0] {
+			if tags[i][0] == tags[j][0] && tags[i][1] != tags[j][1] {
 				return false
 			}
 		}
@@ -132,63 +218,159 @@ func distinctKeys(tags [][2]string) bool {
 
 // ---------------------------------------------------------------- real code
 
-func callReal(c Case) (got bool, panicked interface{}) {
-	defer func() {
-		if p := recover(); p != nil {
-			panicked = p
-		}
-	}()
-	tags := make(osm.Tags, 0, len(c.Tags))
-	for _, t := range c.Tags {
+// outcome of running one case against the library: one answer per object state
+// (every state is asked twice in a row; unstable = index of the first state whose
+// two answers differ, or -1).
+type outcome struct {
+	got      []bool
+	unstable int
+	panicked interface{}
+	at       int
+}
+
+func toTags(tl tagList) osm.Tags {
+	tags := make(osm.Tags, 0, len(tl))
+	for _, t := range tl {
 		tags = append(tags, osm.Tag{Key: t[0], Value: t[1]})
 	}
-	if c.Rel {
-		r := &osm.Relation{ID: 5, Tags: tags}
-		for i, ref := range c.Refs {
-			r.Members = append(r.Members, osm.Member{Type: osm.TypeWay, Ref: ref, Role: []string{"outer", "inner"}[i%2]})
+	return tags
+}
+
+func toNodes(refs []int64, meta bool) osm.WayNodes {
+	var ns osm.WayNodes // stays nil for a way without refs
+	if len(refs) > 0 {
+		ns = make(osm.WayNodes, len(refs))
+	}
+	for i, ref := range refs {
+		ns[i].ID = osm.NodeID(ref)
+	}
+	if meta && len(ns) > 0 {
+		ns[0].Version, ns[0].Lat = 1, 1.5
+		l := len(ns) - 1
+		ns[l].Version, ns[l].Lon, ns[l].ChangesetID = 2, -3.25, 77
+	}
+	return ns
+}
+
+func toMembers(refs []int64) osm.Members {
+	var ms osm.Members
+	for i, ref := range refs {
+		ms = append(ms, osm.Member{Type: osm.TypeWay, Ref: ref, Role: []string{"outer", "inner"}[i%2]})
+	}
+	return ms
+}
+
+// setTags / setNodes give an existing object its next state: in place when the
+// length allows it (the slice header the object holds stays the same), by a new
+// slice otherwise.
+func setTags(dst *osm.Tags, tl tagList) {
+	if len(*dst) == len(tl) && len(tl) > 0 {
+		for i, t := range tl {
+			(*dst)[i] = osm.Tag{Key: t[0], Value: t[1]}
 		}
-		return r.Polygon(), nil
+		return
 	}
-	w := &osm.Way{ID: 9, Tags: tags}
-	for _, ref := range c.Refs {
-		w.Nodes = append(w.Nodes, osm.WayNode{ID: osm.NodeID(ref)})
+	*dst = toTags(tl)
+}
+
+func setNodes(dst *osm.WayNodes, refs []int64, meta bool) {
+	ns := toNodes(refs, meta)
+	if len(*dst) == len(ns) && len(ns) > 0 {
+		copy(*dst, ns)
+		return
 	}
-	if c.Meta && len(w.Nodes) > 0 {
-		w.Nodes[0].Version, w.Nodes[0].Lat = 1, 1.5
-		l := len(w.Nodes) - 1
-		w.Nodes[l].Version, w.Nodes[l].Lon, w.Nodes[l].ChangesetID = 2, -3.25, 77
+	*dst = ns
+}
+
+func callReal(c Case) (o outcome) {
+	o.unstable = -1
+	defer func() {
+		if p := recover(); p != nil {
+			o.panicked = p
+		}
+	}()
+	var ask func() bool
+	var next func(st Step)
+	if c.Rel {
+		r := &osm.Relation{ID: 5, Tags: toTags(c.Tags), Members: toMembers(c.Refs)}
+		applyRelationVariant(r, c.Variant)
+		ask = r.Polygon
+		next = func(st Step) { setTags(&r.Tags, st.Tags); r.Members = toMembers(st.Refs) }
+	} else {
+		w := &osm.Way{ID: 9, Tags: toTags(c.Tags), Nodes: toNodes(c.Refs, c.Meta)}
+		applyWayVariant(w, c.Variant)
+		ask = w.Polygon
+		next = func(st Step) { setTags(&w.Tags, st.Tags); setNodes(&w.Nodes, st.Refs, c.Meta) }
 	}
-	return w.Polygon(), nil
+	for i := 0; i <= len(c.Steps); i++ {
+		o.at = i
+		if i > 0 {
+			next(c.Steps[i-1])
+		}
+		first := ask()
+		second := ask()
+		if first != second && o.unstable < 0 {
+			o.unstable = i
+		}
+		o.got = append(o.got, first)
+	}
+	return o
 }
 
 func checkCase(r *kit.Run, c Case) {
-	if !distinctKeys(c.Tags) {
-		r.Add("skipped_duplicate_keys", 1) // "tag set" is not defined for repeated keys
-		return
+	states := c.states()
+	wants := make([]int, len(states))
+	for i, st := range states {
+		if !isTagSet(st.Tags) {
+			r.Add("skipped_duplicate_keys", 1) // "tag set" is not defined for a key with two values
+			return
+		}
+		if c.Rel {
+			wants[i] = refRelation(st)
+		} else {
+			wants[i] = refWay(st)
+		}
+		if wants[i] == unspecified {
+			r.Add("skipped_empty_value_ambiguous", 1)
+			return
+		}
 	}
-	var want int
-	if c.Rel {
-		want = refRelation(c)
-	} else {
-		want = refWay(c)
+	nt := false
+	for _, st := range states {
+		nt = nt || nonTrivial(st)
 	}
-	if want == unspecified {
-		r.Add("skipped_empty_value_ambiguous", 1)
-		return
-	}
-	r.Case(c.Fingerprint(), nonTrivial(c))
+	r.Case(c.Fingerprint(), nt)
+	desc := c.Describe
 	atomic.AddInt64(r.Counter("family_"+c.Family), 1)
-	if want == yes {
+	if wants[0] == yes {
 		atomic.AddInt64(r.Counter("expected_area"), 1)
 	}
-	got, p := callReal(c)
-	if p != nil {
-		r.Violation("panic/"+kindOf(c), fmt.Sprintf("Polygon() panicked: %v for %s", p, c.Fingerprint()), c)
+	o := callReal(c)
+	if o.panicked != nil {
+		r.Violation("panic/"+kindOf(c)+variantSuffix(c), fmt.Sprintf("Polygon() panicked: %v for %s (state %d)", o.panicked, desc(), o.at), c)
 		return
 	}
-	if got != (want == yes) {
-		r.Violation(keyFor(c, want), fmt.Sprintf("Polygon()=%v, reference says %v for %s", got, want == yes, c.Fingerprint()), c)
+	for i, st := range states {
+		if o.got[i] != (wants[i] == yes) {
+			key := keyFor(st, wants[i]) + variantSuffix(c)
+			if len(states) > 1 {
+				key = fmt.Sprintf("sequence/state%d/%s", i, key)
+			}
+			r.Violation(key, fmt.Sprintf("Polygon()=%v, reference says %v for %s (state %d)", o.got[i], wants[i] == yes, desc(), i), c)
+			return
+		}
 	}
+	if o.unstable >= 0 {
+		r.Violation("second-call-differs/"+keyFor(states[o.unstable], wants[o.unstable])+variantSuffix(c),
+			fmt.Sprintf("two consecutive Polygon() calls on one unchanged object disagree for %s (state %d)", desc(), o.unstable), c)
+	}
+}
+
+func variantSuffix(c Case) string {
+	if c.Variant == "" {
+		return ""
+	}
+	return "/variant=" + c.Variant
 }
 
 func kindOf(c Case) string {
@@ -252,6 +434,15 @@ func keyFor(c Case, want int) string {
 	return "no-rule-key/should-not-be-area"
 }
 
+// size: rough number of bytes of the case (samples are kept small).
+func (c Case) size() int {
+	n := 8 * len(c.Refs)
+	for _, t := range c.Tags {
+		n += len(t[0]) + len(t[1])
+	}
+	return n
+}
+
 func (c Case) lookup(k string) (string, bool) {
 	for _, t := range c.Tags {
 		if t[0] == k {
@@ -265,15 +456,16 @@ func (c Case) tag(k string) string {
 	if !ok {
 		return "absent"
 	}
-	return "value=" + v
+	return "value=" + abbrev(v)
 }
 
 func main() {
 	kit.Main("C18", "exploration", func(r *kit.Run) {
-		r.Rule("every case of five finite families is evaluated (no sampling): F1 every rule key and look-alike key x every value (own list, every other key's list, '', no, yes, unlisted, neighbours of listed values) x area class x area position x way shape; F2 every ordered pair of rule keys x value classes x area x shape; F3 every permutation of every <=3-tag subset of a pool with an unrelated tag at every position; F4 relations: type values x position among other tags; F5 (thorough) every ordered triple of rule keys x value classes. Non-trivial = way closed with >3 refs carrying at least one rule/area key (relations: at least one tag); distinct = distinct (refs, ordered tag list).")
+		r.Rule("every case of nine finite families is evaluated (no sampling): F1 every rule key and look-alike key x every value (own list, every other key's list, '', no, yes, unlisted, neighbours of listed values) x area class x area position x way shape; F2 every ordered pair of rule keys x value classes x area x shape; F3 every permutation of every <=3-tag subset of a pool with an unrelated tag at every position; F4 relations: type values x position among other tags; F5 (thorough) every ordered triple of rule keys x value classes; F6 node refs at the widths where an id encoding changes (negative, 2^31, 2^32, 2^40, 2^53, 2^63-1, first/last equal only after a narrowing), ways of 1999-2001 and 65537 nodes, and every way shape x what else the way carries (own id 0/-1/2^40/max/min, metadata, updates, bounds, spare slice capacity, nil vs empty slices), each x 20 tag lists (every way the tag clause decides, plus string classes of F7 and a relation-only tag); F7 string classes (whitespace, control bytes, non-ASCII look-alikes of 'no', case-folding look-alikes, invalid UTF-8, 4 KiB / 70 KB strings) as the area value, as the value of every rule key, and around every rule key's name; F8 15-4096 tags (thorough 200000) with the deciding tags first/middle/last, and the same tag repeated; F9 one object asked again after its refs/tags changed; every case of every family asks the same object twice in a row. Non-trivial = way closed with >3 refs carrying at least one rule/area key (relations: at least one tag); distinct = distinct (refs, ordered tag list).")
 		r.Assume("reference rule table = independent transcription from memory of the Overpass-turbo polygon-features wiki table (no network); compared key by key with /repo/polygon.go by the author: identical keys, rule kinds and values")
 		r.Assume("a tag with an empty value: the property does not say whether it 'has a value'; cases where the two readings differ are skipped and counted")
-		r.Assume("tag lists with a repeated key are outside the property's 'tag set' and are not generated")
+		r.Assume("tag lists in which a key has two different values are outside the property's 'tag set' and are not generated; a tag repeated with the same value denotes the same set as one occurrence and is judged")
+		r.Assume("the way's node refs are the ids of w.Nodes as given; w.Updates never change refs")
 		if r.ReplayPath != "" {
 			var c Case
 			r.LoadReplay(&c)
@@ -281,14 +473,20 @@ func main() {
 			return
 		}
 		selfCheckTable()
-		cases := enumerate(!r.Quick())
+		if err := selfCheckCodec(codecSamples()); err != nil {
+			kit.Fatalf("%v", err)
+		}
+		// the boundary families come first: their few large cases (65537 nodes,
+		// 4096 tags) then overlap with the bulk instead of forming a tail
+		cases := enumerateBoundary(!r.Quick())
+		cases = enumerate(!r.Quick(), cases)
 		r.Set("cases_generated", len(cases))
 		r.Set("rule_keys", len(published))
 		// samples: six non-trivial, judged cases spread evenly over the case list
 		for k := 0; k < 6; k++ {
 			for i := k*len(cases)/6 + len(cases)/12; i < len(cases); i++ {
 				c := cases[i]
-				if nonTrivial(c) && (c.Rel || refWay(c) != unspecified) {
+				if nonTrivial(c) && (c.Rel || refWay(c) != unspecified) && c.size() < 400 {
 					r.Sample(c)
 					break
 				}
